@@ -307,7 +307,7 @@ def run(tier):
             raise MachineryError("Replicate.tla slice %s: TLC failed: %s" % (name, r["out"][-1500:]))
         cases = r["cases"]
         r["out"] = ""
-        if len(cases) < 50:
+        if len(cases) < 20:
             raise MachineryError("TLC emitted only %d cases for slice %s" % (len(cases), name))
         for c in cases:
             if c["status"] == "ok":
